@@ -111,6 +111,9 @@ class Ctx:
             "known_findings_hit": sorted(self.known_hits),
         }
         cov.update(extra_cov or {})
+        if level == "other":
+            cov["explanation"] = self.notes.get("explanation", "structural part decided by TLC over tables generated from the live module "
+                                                "(exhaustive); numeric part sampled over values by the projection")
         ev = {
             "property_id": self.pid, "tier": self.tier, "seed": self.seed, "level": level,
             "coverage": cov, "assumptions": self.assumptions, "wall_s": round(wall, 2),
